@@ -87,7 +87,8 @@ inline void run_tunnel(Tape &t, Mode mode, Run &R)
 	// a relay in the path (C01: DNS-id rewriting and case-randomising relays; C02: id rewriting only, the path stays intact)
 	// drawn early: a tunnel case uses up most of its tape for the offers
 	bool busy_draw = false; uint32_t busy_period_ms = 200;
-	if (mode == RECOVER) { busy_draw = t.chance(1, 3); busy_period_ms = (uint32_t)t.range(120, 500); }
+	int busy_side = 0;   // 0 client's tun, 1 server's tun, 2 both
+	if (mode == RECOVER) { busy_draw = t.chance(1, 3); busy_period_ms = (uint32_t)t.range(120, 500); busy_side = (int)t.pick({3, 1, 1}); }
 	if (mode == REDELIVER) { c.raw_mode = false; c.client_v6 = false; }
 	bool use_relay = !c.raw_mode && !c.client_v6 && (mode == REDELIVER || t.chance(1, mode == FAULTY ? 3 : 6));
 	if (use_relay) c.nameserver = sim::Addr::v4(192, 0, 2, 53, 53);
@@ -246,7 +247,7 @@ inline void run_tunnel(Tape &t, Mode mode, Run &R)
 	if (R.busy) {
 		uint64_t period = (uint64_t)busy_period_ms * 1000;
 		auto cnt = std::make_shared<int>(0);
-		sim::Instance *ci = s.cli[0];
+		sim::Instance *ci = s.cli[0], *si = s.srv;
 		Bytes csrc = cip[0], cdst = sip;
 		streamer = std::make_shared<std::function<void()>>();
 		std::weak_ptr<std::function<void()>> weak = streamer;
@@ -254,12 +255,14 @@ inline void run_tunnel(Tape &t, Mode mode, Run &R)
 		*streamer = [=]() {
 			if (Rp->stream_stop) return;
 			Bytes body(20 + (*cnt % 50)); for (size_t k = 0; k < body.size(); k++) body[k] = (uint8_t)(*cnt * 7 + k * 3);
-			if (ci->tun_in.size() < 64) sim::W.offer_tun(ci, scn::tun_packet(cdst, csrc, body, (uint16_t)(30000 + (*cnt)++)));
+			if (busy_side != 1 && ci->tun_in.size() < 64) sim::W.offer_tun(ci, scn::tun_packet(cdst, csrc, body, (uint16_t)(30000 + *cnt)));
+			if (busy_side != 0 && si->tun_in.size() < 64) sim::W.offer_tun(si, scn::tun_packet(csrc, cdst, body, (uint16_t)(45000 + *cnt)));
+			(*cnt)++;
 			Rp->n_stream++;
 			if (auto sp = weak.lock()) sim::W.after(period, *sp);
 		};
 		sim::W.after(period, *streamer);
-		R.classes.push_back("busy-upstream-stream");
+		R.classes.push_back(busy_side == 0 ? "busy-upstream-stream" : (busy_side == 1 ? "busy-downstream-stream" : "busy-both-ways"));
 	}
 	// run the offers
 	size_t next = 0;
